@@ -1,12 +1,17 @@
 """C17: iv_fd_pump — T-replay: the real iv_fd_pump.c (white-box include, scripted read/write/splice/
-ioctl results) writes a log; the Lean model Ivy.L3.Pump replays it and must predict every call,
-set_bands and return value. An independent stream oracle checks the implementation's log alone."""
-import hashlib, os, random, re
+ioctl results, several live pumps on one thread sharing the real per-thread buffer cache, real pipes
+whose content is tracked per pipe) writes a log; the Lean thread machine Ivy.L3.PumpCache (on top of
+Ivy.L3.Pump) replays it and must predict every call, set_bands, return value, buffer ownership and the
+cache length / buffers alive after every operation. An independent per-slot stream oracle checks the
+implementation's log alone."""
+import glob, hashlib, os, random, re
 from . import common
 
 PROP = "C17"
-LEANCHECK_MODULES = ["Ivy.L3.Pump", "Ivy.L3.PumpProofs", "Ivy.Props.C17"]
+LEANCHECK_MODULES = ["Ivy.L3.Pump", "Ivy.L3.PumpProofs", "Ivy.L3.PumpCache", "Ivy.L3.PumpCacheProofs", "Ivy.Props.C17"]
 HARNESS = os.path.join(common.BUILD, "pump_h")
+CORPUS = os.path.join(common.VERIF, "corpus", PROP)
+MAX_CACHED = 20     # replaced by the value extracted from the source (gen facts) in run()
 
 
 def build():
@@ -18,183 +23,379 @@ def build():
                      extra=[f'-DPUMP_SRC="{common.REPO}/src/iv_fd_pump.c"'])
 
 
-def oracle(log, bufsize=4096):
-    """C17 stated on the implementation's own log: byte stream, EOF relay, return values, bands."""
-    src = sink = 0
-    relay = splice = 0
-    eof = done = False
-    shut = 0
-    full = False
+class _P:
+    """what the log says about one live pump"""
+    def __init__(self, relay):
+        self.relay = relay
+        self.src = self.sink = 0
+        self.eof = False
+        self.shut = 0
+        self.full = False
+        self.err = False
+        self.last_bands = None
+        self.buf = 0
+        self.broken = False
+
+
+def oracle(log, bufsize=4096, max_cached=None, stats=None):
+    """C17 stated on the implementation's own log, per pump: byte stream (content and order, no bytes of
+    another pump's stream), EOF relay, return values, bands; and for the thread: cached buffers are empty
+    and bounded, buffers alive = held by live pumps + cached, nothing alive after thread deinit.
+    No model involved. Returns None or the first violation (stream-level ones take precedence over the
+    white-box cache observations)."""
+    max_cached = MAX_CACHED if max_cached is None else max_cached
+    slots = {}
+    splice = None
+    cur = None
     inpump = False
-    outs = []
-    err = False
-    last_bands = None
-    eagain_with_bytes = False
+    fallback = None
+    st = stats if stats is not None else {}
+    for key in ("max_live", "pumps_created", "error_with_data", "final_seen"):
+        st.setdefault(key, 0)
+    st.setdefault("cache_depth", {})
     for n, l in enumerate(log, 1):
         w = l.split()
         if not w:
             continue
-        if w[0] == "NEW":
-            relay = int(w[2]); src = sink = 0; eof = done = False; shut = 0; full = False
+        P = slots.get(cur)
+        if w[0] == "MODE":
+            splice = int(w[1])
+        elif w[0] == "NEW":
+            cur = int(w[1])
+            slots[cur] = _P(int(w[3]))
+            st["pumps_created"] += 1
+            st["max_live"] = max(st["max_live"], len(slots))
         elif w[0] == "ENDNEW":
-            splice = int(w[2])
+            splice = int(w[2]); cur = None
         elif w[0] == "PUMP":
-            inpump = True; outs = []; err = False; last_bands = None
+            cur = int(w[1]); inpump = True
+            P = slots.get(cur)
+            if P is None:
+                return f"line {n}: harness error: pump on a slot without pump"
+            P.err = False; P.last_bands = None
+        elif w[0] == "DESTROY":
+            cur = int(w[1])
+        elif w[0] == "ENDDESTROY":
+            if int(w[2]) != 0:
+                return f"line {n}: slot {cur}: pump still owns a buffer after destroy"
+            slots.pop(cur, None); cur = None
         elif w[0] == "OUT":
-            outs.append(w[1:])
+            if w[1] in ("BADCOOKIE",) or (len(w) > 2 and w[2] == "BADARGS"):
+                return f"line {n}: slot {cur}: callback/shutdown with foreign arguments"
+            if P is None or not inpump:
+                continue
             if w[1] == "read":
                 if int(w[2]) == 0:
                     return f"line {n}: read issued with count 0 (fakes an end-of-file)"
-                if eof:
+                if P.eof:
                     return f"line {n}: read issued after end-of-file was seen"
             elif w[1] == "write":
-                if int(w[2]) != src - sink:
-                    return f"line {n}: write offered {w[2]} bytes but {src - sink} are buffered"
+                if int(w[2]) != P.src - P.sink:
+                    return f"line {n}: write offered {w[2]} bytes but {P.src - P.sink} are buffered"
             elif w[1] == "shutdown":
-                shut += 1
-                if len(w) > 2:
-                    return f"line {n}: shutdown with wrong arguments"
-                if not relay:
+                P.shut += 1
+                if not P.relay:
                     return f"line {n}: output shut down although EOF relay was not requested"
-                if not eof or sink != src:
-                    return f"line {n}: EOF relayed before all buffered data was delivered (src={src} sink={sink})"
-                if shut > 1:
+                if not P.eof or P.sink != P.src:
+                    return f"line {n}: EOF relayed before all buffered data was delivered (src={P.src} sink={P.sink})"
+                if P.shut > 1:
                     return f"line {n}: output shut down twice"
             elif w[1] == "setBands":
-                last_bands = (int(w[2]), int(w[3]))
-            elif w[1] == "BADFD":
-                return f"line {n}: I/O on a foreign descriptor"
+                P.last_bands = (int(w[2]), int(w[3]))
         elif w[0] == "BADFD":
-            return f"line {n}: I/O on a foreign descriptor"
+            return f"line {n}: I/O on a foreign or closed descriptor ({' '.join(w[1:])})"
+        elif w[0] == "HANG":
+            return f"line {n}: slot {cur}: blocking splice issued on an empty pipe (the call would never return)"
+        elif w[0] == "HARNESS":
+            return f"line {n}: harness limit: {l}"
         elif w[0] == "EV":
+            if P is None:
+                continue
             if w[1] == "rd":
                 if w[2] == "data":
-                    src += int(w[3])
-                    if not splice and src - sink > bufsize:
+                    P.src += int(w[3])
+                    if not splice and P.src - P.sink > bufsize:
                         return f"line {n}: more than BUF_SIZE bytes buffered"
                 elif w[2] == "eof":
-                    eof = True
+                    P.eof = True
                 elif w[2] == "err":
-                    err = True
-                elif w[2] == "eagain":
-                    eagain_with_bytes = splice and (src - sink) > 0
+                    P.err = True
             elif w[1] == "fion":
                 if int(w[2]) > 0:
-                    full = True
+                    P.full = True
             elif w[1] == "wr":
                 if w[2] == "n":
-                    sink += int(w[3]); full = False
+                    P.sink += int(w[3]); P.full = False
                 elif w[2] in ("err", "zero"):
-                    err = True
+                    P.err = True
         elif w[0] == "CONTENT":
             if w[1] != "ok":
-                return f"line {n}: bytes offered to the output are not the next bytes of the input stream (loss, duplication or reordering)"
+                why = " ".join(w[2:]) or "content"
+                return (f"line {n}: bytes delivered to the output are not the next bytes of this pump's own input stream "
+                        f"(loss, duplication, reordering or another pump's bytes: {why})")
         elif w[0] == "RET":
             r = int(w[1])
-            if sink > src:
+            if P.sink > P.src:
                 return f"line {n}: delivered more than was read"
             if not splice:
-                full = (src - sink) == bufsize
-            want_done = eof and sink == src
-            if err:
+                P.full = (P.src - P.sink) == bufsize
+            want_done = P.eof and P.sink == P.src
+            if P.err:
                 if r != -1:
                     return f"line {n}: I/O error consumed but pump returned {r}"
+                if P.src - P.sink > 0:
+                    st["error_with_data"] += 1
             else:
                 if want_done and r != 0:
                     return f"line {n}: all data delivered after EOF but pump returned {r}"
                 if not want_done and r != 1:
-                    return f"line {n}: pump returned {r} while more remains (eof={eof} buffered={src-sink})"
-                if r == 0 and relay and shut != 1:
+                    return f"line {n}: pump returned {r} while more remains (eof={P.eof} buffered={P.src-P.sink})"
+                if r == 0 and P.relay and P.shut != 1:
                     return f"line {n}: pump done but EOF was not relayed"
-                exp = (0, 0) if want_done else ((0, 1) if eof else (int(not full), int(src - sink > 0)))
-                if last_bands != exp:
-                    return f"line {n}: bands requested {last_bands}, state says {exp} (eof={eof} buffered={src-sink} full={full})"
+                exp = (0, 0) if want_done else ((0, 1) if P.eof else (int(not P.full), int(P.src - P.sink > 0)))
+                if P.last_bands != exp:
+                    return f"line {n}: bands requested {P.last_bands}, state says {exp} (eof={P.eof} buffered={P.src-P.sink} full={P.full})"
                 if int(w[5]) != int(want_done):
                     return f"line {n}: is_done()={w[5]} but done={want_done}"
+            P.buf = int(w[3])
+            if r < 0:
+                P.broken = True
             inpump = False
+            cur = None
+        elif w[0] == "CACHED":
+            nc, alive, fds = int(w[1]), int(w[3]), int(w[4])
+            dirty = int(w[10]) if len(w) > 10 else 0
+            st["cache_depth"][nc] = st["cache_depth"].get(nc, 0) + 1
+            held = sum(1 for q in slots.values() if q.buf)
+            if fallback is None:
+                if dirty:
+                    fallback = f"line {n}: {dirty} cached pipe(s) still hold undelivered bytes (they will reach the output of the next pump that takes the pipe)"
+                elif nc > max_cached:
+                    fallback = f"line {n}: {nc} buffers cached, more than MAX_CACHED_BUFS={max_cached}"
+                elif alive != held + nc:
+                    fallback = f"line {n}: buffer accounting: {alive} buffers exist but {held} are held by pumps and {nc} cached (leak or double release)"
+                elif fds != (2 * alive if splice else 0):
+                    fallback = f"line {n}: descriptor accounting: {fds} pipe descriptors open for {alive} buffers (splice={splice})"
+        elif w[0] == "FINAL":
+            st["final_seen"] += 1
+            if (int(w[2]), int(w[3])) != (0, 0) and fallback is None:
+                fallback = f"line {n}: after thread deinit {w[2]} buffers and {w[3]} pipe descriptors are still alive"
     if inpump:
         return "log ends inside a pump call (crash or sanitizer abort)"
-    return None
+    return fallback
 
 
-def gen_case(rng, tier):
+# ---------------------------------------------------------------- generators
+MODES = ["0", "1", "probe-ok", "probe-fail"]
+
+
+def pump_evs(rng, big, perr=0.08, peof=0.12):
+    r, w, f = [], [], []
+    for _ in range(rng.choice([0, 0, 1, 2])):
+        r.append("i")
+    k = rng.random()
+    if k < 1.0 - 0.20 - peof - perr:
+        r.append("d%d" % (rng.choice([1, 2, 7, 100, 4095, 4096, 5000, 70000]) if big else rng.choice([1, 2, 3, 9, 50])))
+    elif k < 1.0 - peof - perr:
+        r.append("a")
+    elif k < 1.0 - perr:
+        r.append("e")
+    else:
+        r.append("x")
+    for _ in range(rng.choice([0, 0, 1, 2])):
+        w.append("i")
+    k = rng.random()
+    if k < 0.62:
+        w.append("n%d" % (rng.choice([1, 2, 5, 100, 4000, 4096, 100000]) if big else rng.choice([1, 2, 3, 9, 50, 1000])))
+    elif k < 0.90:
+        w.append("a")
+    elif k < 0.90 + perr * 0.6:
+        w.append("x")
+    elif k < 0.90 + perr:
+        w.append("z")
+    else:
+        w.append("a")
+    f.append(str(rng.choice([0, 0, 1, 5, -999, -3])))
+    return "R " + " ".join(r) + " W " + " ".join(w) + " F " + " ".join(f)
+
+
+def gen_legacy(rng):
+    """one pump at a time, old slot-less op forms (also keeps the old syntax exercised)"""
     ops = []
-    npumps = rng.choice([1, 2, 3])
-    for _ in range(npumps):
+    for _ in range(rng.choice([1, 2, 3])):
         mode = rng.choice(["0", "0", "1", "1", "probe-ok", "probe-fail"])
         ops.append(f"new {mode} {rng.randrange(2)}")
         big = rng.random() < 0.4
         for _ in range(rng.choice([5, 15, 40])):
-            r, w, f = [], [], []
-            for _ in range(rng.choice([0, 1, 1, 2])):
-                r.append("i")
-            k = rng.random()
-            if k < 0.60:
-                r.append("d%d" % (rng.choice([1, 2, 7, 100, 4095, 4096, 5000, 70000]) if big else rng.choice([1, 2, 3, 9, 50])))
-            elif k < 0.80:
-                r.append("a")
-            elif k < 0.92:
-                r.append("e")
-            else:
-                r.append("x")
-            for _ in range(rng.choice([0, 0, 1, 2])):
-                w.append("i")
-            k = rng.random()
-            if k < 0.65:
-                w.append("n%d" % (rng.choice([1, 2, 5, 100, 4000, 4096, 100000]) if big else rng.choice([1, 2, 3, 9, 50, 1000])))
-            elif k < 0.90:
-                w.append("a")
-            elif k < 0.95:
-                w.append("x")
-            else:
-                w.append("z")
-            f.append(str(rng.choice([0, 0, 1, 5, -999, -3])))
-            ops.append("pump R " + " ".join(r) + " W " + " ".join(w) + " F " + " ".join(f))
+            ops.append("pump " + pump_evs(rng, big))
         if rng.random() < 0.5:
-            # drain to completion
-            ops.append("pump R e W n1000000")
-            ops.append("pump R e W n1000000")
-            ops.append("pump")
+            ops += ["pump R e W n1000000", "pump R e W n1000000", "pump"]
         if rng.random() < 0.5:
             ops.append("destroy")
     return ops
 
 
+def gen_multi(rng):
+    """1-4 concurrent pumps with interleaved calls, errors, destroy/re-create, rare mode switches"""
+    nslots = rng.choice([1, 2, 2, 3, 3, 4, 4])
+    mode = rng.choice(["0", "1", "1", "1", "probe-ok", "probe-fail"])
+    ops, live, suspect = [], set(), set()
+    big = rng.random() < 0.25
+    perr = rng.choice([0.03, 0.08, 0.2])
+    for _ in range(rng.choice([20, 40, 80])):
+        k = rng.randrange(nslots)
+        if k not in live:
+            if ops and rng.random() < 0.05:
+                mode = rng.choice(MODES)
+                live.clear(); suspect.clear()       # the harness destroys every pump on a mode switch
+            ops.append(f"new {k} {mode} {rng.randrange(2)}")
+            if mode.startswith("probe"):
+                mode = "1" if mode == "probe-ok" else "0"   # later pumps keep the probed mode without probing again
+            live.add(k)
+        elif (k in suspect and rng.random() < 0.7) or rng.random() < 0.05:
+            ops.append(f"destroy {k}")
+            live.discard(k); suspect.discard(k)
+        else:
+            ev = pump_evs(rng, big, perr)
+            ops.append(f"pump {k} {ev}")
+            if " x" in ev or " z" in ev:
+                suspect.add(k)
+    if rng.random() < 0.5:
+        for k in sorted(live):
+            ops += [f"pump {k} R e W n1000000", f"pump {k} R e W n1000000"]
+    if rng.random() < 0.3:
+        ops.append("deinit-purge")
+    return ops
+
+
+def gen_error_reuse(rng):
+    """a pump ends with an I/O error while it has data buffered; new pumps on the same thread follow"""
+    mode = rng.choice(["1", "1", "1", "probe-ok", "0"])
+    ops = []
+    nxt = mode
+    def new(k):
+        nonlocal nxt
+        ops.append(f"new {k} {nxt} {rng.randrange(2)}")
+        if nxt.startswith("probe"):
+            nxt = "1" if nxt == "probe-ok" else "0"
+    other = rng.random() < 0.5
+    if other:
+        new(2)
+        ops.append(f"pump 2 R d{rng.choice([1, 4, 30])} W a")
+    for rnd in range(rng.choice([1, 1, 2, 3])):
+        a = rng.choice([0, 1])
+        new(a)
+        for _ in range(rng.choice([1, 1, 2])):
+            ops.append(f"pump {a} R d{rng.choice([1, 2, 3, 10, 500])} W {rng.choice(['a', 'a', 'n1', 'i a'])}")
+        ops.append(f"pump {a} " + rng.choice(["R a W x", "R x", "R d3 W z", "R i x", "R d2 W i x", "R a W z", "R e W x"]))
+        if other and rng.random() < 0.5:
+            ops.append(f"pump 2 R d{rng.choice([1, 5])} W n{rng.choice([1, 3, 100])}")
+        if rng.random() < 0.85:
+            ops.append(f"destroy {a}")
+        b = rng.choice([0, 1, 3])
+        new(b)
+        for _ in range(rng.choice([1, 2, 4])):
+            ops.append(f"pump {b} R d{rng.choice([1, 2, 5, 40])} W {rng.choice(['n1', 'n2', 'n100', 'a', 'n3'])} F {rng.choice([0, 1])}")
+        if rng.random() < 0.7:
+            ops += [f"pump {b} R e W n1000000", f"pump {b} R e W n1000000"]
+        if rng.random() < 0.5:
+            ops.append(f"destroy {b}")
+    return ops
+
+
+def gen_cache_bound(rng):
+    """more than MAX_CACHED_BUFS pumps hold a buffer at the same time and release them"""
+    n = rng.choice([21, 22, 24, 26, 30])
+    mode = rng.choice(["0", "1", "1"])
+    ops = [f"new {k} {mode} {rng.randrange(2)}" for k in range(n)]
+    for k in range(n):
+        ops.append(f"pump {k} R d{rng.choice([1, 3, 8])} W a")
+    order = list(range(n)); rng.shuffle(order)
+    for k in order:
+        c = rng.random()
+        if c < 0.25:
+            ops.append(f"destroy {k}")                 # rw: cached with data in it; splice: pipe closed
+        elif c < 0.35:
+            ops.append(f"pump {k} R a W x")            # error with data
+        else:
+            ops.append(f"pump {k} R a W n100000")      # drained: the buffer goes to the cache
+    for k in rng.sample(range(n), rng.choice([3, 8, n])):
+        ops.append(f"new {k} {mode} {rng.randrange(2)}")    # (destroys what is left in the slot)
+        ops.append(f"pump {k} R d{rng.choice([2, 6])} W n{rng.choice([1, 2, 100])}")
+        if rng.random() < 0.5:
+            ops += [f"pump {k} R e W n1000000"]
+    if rng.random() < 0.5:
+        ops.append("deinit-purge")
+        ops.append(f"new 0 {mode} 1")
+        ops.append("pump 0 R d4 W n4")
+    return ops
+
+
+FAMILIES = [("multi", gen_multi, 45), ("errreuse", gen_error_reuse, 27), ("cachebound", gen_cache_bound, 8), ("legacy", gen_legacy, 20)]
+
+
+def gen_case(rng, tier):
+    x = rng.randrange(100)
+    for name, fn, wgt in FAMILIES:
+        if x < wgt:
+            return name, fn(rng)
+        x -= wgt
+    return "multi", gen_multi(rng)
+
+
+def corpus_cases():
+    out = []
+    for p in sorted(glob.glob(os.path.join(CORPUS, "*.ops"))):
+        out.append(("corpus-" + os.path.basename(p)[:-4],
+                    [l.strip() for l in open(p) if l.strip() and not l.startswith("#")]))
+    return out
+
+
 def gen_cases(tier, seed):
     rng = random.Random(seed * 104729 + 17)
-    for i in range(300 if tier == "quick" else 4000):
-        yield (f"rand-{i}", gen_case(rng, tier))
-
-
-def fix_after_error(ops):
-    return ops
+    for i in range(500 if tier == "quick" else 4000):
+        fam, ops = gen_case(rng, tier)
+        yield (f"{fam}-{i}", ops)
 
 
 def run_impl(ops):
     return common.run_cmd([HARNESS], "\n".join(ops) + "\n")
 
 
-def impl_fails(ops):
+def impl_fails(ops, stats=None):
     a = run_impl(ops)
     log = a.stdout.splitlines()
-    msg = oracle(log)
+    msg = oracle(log, stats=stats)
     if msg is None and a.returncode != 0:
         msg = f"harness exit {a.returncode} {common.san_line(a.stderr)}"
+    if msg is None and not any(l.startswith("FINAL") for l in log):
+        msg = "harness did not reach the end of the run"
     return msg, a
 
 
-def examine(name, ops, tier, seed, res, cov):
-    a = run_impl(ops)
-    log = a.stdout.splitlines()
+def signature(msg):
+    return "pump:" + re.sub(r"\d+", "N", re.sub(r"line \d+: ", "", msg))[:60]
+
+
+def shrink_impl(ops, msg):
+    """smallest op file with the same kind of failure"""
+    sig = signature(msg)
+    def still(o):
+        if not o[0].startswith("new"):
+            return False
+        m = impl_fails(o)[0]
+        return m is not None and signature(m) == sig
+    small = common.shrink(ops, still)
+    return small, (impl_fails(small)[0] or msg)
+
+
+def examine(name, ops, tier, seed, res, cov, stats):
+    msg, a = impl_fails(ops, stats)
     res.evaluations += 1
-    msg = oracle(log)
-    if msg is None and a.returncode != 0:
-        msg = f"harness exit {a.returncode} {common.san_line(a.stderr)}"
     if msg is not None:
-        small = common.shrink(ops, lambda o: o[0].startswith("new") and impl_fails(o)[0] is not None)
-        msg2 = impl_fails(small)[0] or msg
+        small, msg2 = shrink_impl(ops, msg)
         p = common.write_case(PROP, name, small, tier, seed)
-        res.impl_violations.append(("pump:" + re.sub(r"line \d+: ", "", msg2)[:50], f"implementation violates C17: {msg2}", p))
+        res.impl_violations.append((signature(msg2), f"implementation violates C17: {msg2}", p))
         return
     b = common.run_cmd([common.REPLAY_BIN, "pump"], a.stdout)
     div = [l for l in b.stdout.splitlines() if l.startswith(("DIVERGE", "bad-log"))]
@@ -211,36 +412,55 @@ def examine(name, ops, tier, seed, res, cov):
             return any(l.startswith("DIVERGE") for l in y.stdout.splitlines())
         small = common.shrink(ops, still) if div else ops
         p = common.write_case(PROP, name, small, tier, seed)
-        res.divergences.append((f"model Ivy.L3.Pump does not predict iv_fd_pump.c: {(div or ['replayer failed: ' + b.stderr[-200:]])[0][:400]}", p))
+        res.divergences.append((f"model Ivy.L3.PumpCache/Ivy.L3.Pump does not predict iv_fd_pump.c: {(div or ['replayer failed: ' + b.stderr[-200:]])[0][:400]}", p))
 
 
 def run(tier, seed, proof):
+    global MAX_CACHED
     res = common.Result()
-    res.rule = ("scripted pump runs: 1-3 pumps per case, each in read/write or splice mode (forced or chosen by the availability probe), with or "
-                "without EOF relay, 5-40 pump calls with random partial reads/writes (1..70000 bytes), EAGAIN, EINTR chains, EOF, errors, "
-                "zero-length writes, FIONREAD values incl. failure. Every call the code makes, set_bands, return value, buffer ownership and "
-                "is_done are compared with the model's prediction; a stream oracle checks the implementation log alone (content, order, EOF "
-                "relay, bands, return codes). non-trivial = the case reached EOF-with-buffered-data or an error or a full buffer; distinct "
-                "by hash of the op file")
-    res.assumptions = ["kernel contract: read/splice return 1..count bytes, write 1..count; buffer allocation does not fail",
-                       "splice-mode content order is the kernel pipe's FIFO order"]
+    res.rule = ("scripted runs of 1-30 pumps living on ONE thread and sharing the real per-thread buffer cache (never purged between pumps "
+                "except on a forced change of transfer mode): families multi (1-4 concurrent slots, interleaved pump calls, destroy/re-create, "
+                "mode switches, thread-deinit purge), errreuse (a pump fails with an I/O error while data is buffered, new pumps follow on the "
+                "same thread), cachebound (21-30 pumps hold buffers at once and release them: cache bound), legacy (one pump at a time, old "
+                "op syntax), plus the corpus files; read/write or splice mode (forced or chosen by the availability probe), with or without "
+                "EOF relay, random partial reads/writes (1..70000 bytes), EAGAIN, EINTR chains, EOF, errors, zero-length writes, FIONREAD "
+                "values incl. failure. Splice mode tracks the content of every real pipe by inode; every slot has its own byte stream. "
+                "Every call the code makes, set_bands, return value, buffer ownership, is_done, delivered-content verdict, cache length, "
+                "buffers/descriptors alive and malloc/free counts after every operation are compared with the model's prediction; a "
+                "per-slot stream oracle checks the implementation log alone (content, order, isolation between pumps, EOF relay, bands, "
+                "return codes, cache emptiness/bound, buffer accounting, nothing alive after thread deinit). non-trivial = the case "
+                "contains an EOF, an error, a full buffer or more than one pump; distinct by hash of the op file")
+    res.assumptions = ["kernel contract: read/splice return 1..count bytes, write 1..count; malloc/pipe2 do not fail",
+                       "splice-mode content order is the kernel pipe's FIFO order; splice(pipe->fd, n) delivers the first n bytes of the pipe",
+                       "after iv_fd_pump_pump returned -1 the only call made on that pump is iv_fd_pump_destroy (the harness skips other calls)",
+                       "all pumps of a thread use one transfer mode (splice_available is set once per process); a forced mode change in the harness "
+                       "destroys all pumps and purges the cache first"]
+    MAX_CACHED = int(proof.get("gen", {}).get("PUMP_MAX_CACHED_BUFS", 20) or 20)
     ok, log = build()
     if not ok:
         res.divergences.append(("white-box harness for iv_fd_pump.c no longer compiles: " + log[-400:], None))
         return res
     if not proof["driver_ok"]:
         return res
-    cov = {}
-    for name, ops in gen_cases(tier, seed):
-        examine(name, ops, tier, seed, res, cov)
+    cov, stats, fam = {}, {}, {}
+    for name, ops in corpus_cases() + list(gen_cases(tier, seed)):
+        examine(name, ops, tier, seed, res, cov, stats)
+        fam[name.split("-")[0]] = fam.get(name.split("-")[0], 0) + 1
         txt = "\n".join(ops)
-        if " e" in txt or " x" in txt or "d4096" in txt or "d5000" in txt:
+        if " e" in txt or " x" in txt or "d4096" in txt or "d5000" in txt or txt.count("new ") > 1:
             res.nontrivial.add(hashlib.sha1(txt.encode()).hexdigest()[:12])
-        if len(res.samples) < 2:
+        if len(res.samples) < 3 and not name.startswith("corpus"):
             res.samples.append({"case": name, "ops_head": ops[:8], "n_ops": len(ops)})
         if len(res.impl_violations) + len(res.divergences) >= 4:
             break
     res.extra["model_branch_coverage"] = cov
+    res.extra["case_families"] = fam
+    res.extra["max_live_pumps_in_a_case"] = stats.get("max_live", 0)
+    res.extra["pumps_created"] = stats.get("pumps_created", 0)
+    res.extra["cache_depth_histogram_impl"] = {str(k): v for k, v in sorted(stats.get("cache_depth", {}).items())}
+    res.extra["error_with_data_buffered_events_impl"] = stats.get("error_with_data", 0)
+    res.extra["acquisitions_from_cache_vs_fresh_model"] = {"cached": cov.get("acquire-cached", 0), "fresh": cov.get("acquire-fresh", 0)}
+    res.extra["releases_model"] = {k: cov.get(k, 0) for k in ("release-cached", "release-closed-nonempty-pipe", "release-freed-cache-full")}
     return res
 
 
@@ -250,13 +470,13 @@ def search(tier, seed, proof):
     if not ok:
         return res
     for s in range(seed + 900, seed + 903):
-        for name, ops in gen_cases("quick", s):
+        for name, ops in corpus_cases() + list(gen_cases("quick", s)):
             res.evaluations += 1
             msg, a = impl_fails(ops)
             if msg:
-                small = common.shrink(ops, lambda o: o[0].startswith("new") and impl_fails(o)[0] is not None)
+                small, msg2 = shrink_impl(ops, msg)
                 p = common.write_case(PROP, "search-" + name, small, tier, seed)
-                res.impl_violations.append(("pump:" + re.sub(r"line \d+: ", "", msg)[:50], "implementation violates C17: " + msg, p))
+                res.impl_violations.append((signature(msg2), "implementation violates C17: " + msg2, p))
                 return res
     return res
 
